@@ -74,3 +74,44 @@ def is_lit(n, t=None):
 
 def matches_in(body, src=None):
     return [n for n in walk(body) if n.get("k") == "match" and (src is None or n.get("src") == src)]
+
+
+def decode_fmt_template(bs):
+    """decode the byte template of core::fmt::Arguments::new (nightly 1.97 encoding):
+    0xC0 = next positional placeholder (default formatting), n in 1..=0x7F = literal of the next n
+    bytes, 0x00 = end.  Any other opcode -> ValueError (callers fail closed)."""
+    out = []
+    i = 0
+    while i < len(bs):
+        b = bs[i]
+        if b == 0:
+            if i != len(bs) - 1:
+                raise ValueError("template continues after end marker")
+            return out
+        if b == 0xC0:
+            out.append(("arg",))
+            i += 1
+        elif 1 <= b <= 0x7F:
+            lit = bytes(bs[i + 1:i + 1 + b]).decode("utf-8")
+            out.append(("lit", lit))
+            i += 1 + b
+        else:
+            raise ValueError("unknown format template opcode 0x%02X" % b)
+    raise ValueError("unterminated format template")
+
+
+def fmt_calls(body):
+    """all `fmt::Arguments::new(template, &args)` calls in a body: (node, pieces)"""
+    out = []
+    for n in walk(body):
+        if n.get("k") == "call" and n.get("callee") and n["callee"][0] == "def" and n["callee"][2].endswith("fmt::Arguments::<'a>::new"):
+            a0 = n["args"][0]
+            if a0.get("k") == "lit" and a0.get("t") == "bytes":
+                out.append((n, decode_fmt_template(a0["v"])))
+            else:
+                out.append((n, None))
+        if n.get("k") == "call" and n.get("callee") and n["callee"][0] == "def" and n["callee"][2].endswith("fmt::Arguments::<'a>::from_str"):
+            a0 = n["args"][0]
+            if a0.get("k") == "lit" and a0.get("t") == "str":
+                out.append((n, [("lit", a0["v"])]))
+    return out
